@@ -1,5 +1,5 @@
-import PytaskProofs.Lemmas.EngineProtocol
-import PytaskProofs.Lemmas.EngineGraph
+import PytaskProofs.Lemmas.StateProtocol
+import PytaskProofs.Lemmas.StateGraph
 /-!
 # The state-table invariant of the build engine and its consequences
 -/
